@@ -156,3 +156,167 @@ func reRegistered(r *ev.Run, caseID string, i int) {
 }
 
 var _ = ev.Spec{}
+
+// slashTwins: two webhooks whose URLs differ by a trailing slash are two webhooks. One is revoked; the other is still
+// registered and gets exactly one event for every header stored afterwards.
+func slashTwins(r *ev.Run, caseID string, i int) {
+	rng := r.Rand(caseID)
+	var mu sync.Mutex
+	posts := map[string]int{} // request URI + "|" + event hash
+	srv := httptest.NewUnstartedServer(http.HandlerFunc(func(w http.ResponseWriter, q *http.Request) {
+		body, _ := io.ReadAll(q.Body)
+		if evj, err := parseEvent(body); err == nil && evj.Header != nil {
+			mu.Lock()
+			posts[q.URL.RequestURI()+"|"+evj.Header.Hash]++
+			mu.Unlock()
+		}
+		w.WriteHeader(http.StatusOK)
+	}))
+	srv.Config.SetKeepAlivesEnabled(false)
+	srv.Start()
+	defer srv.Close()
+	st, err := rig.New(rig.Options{Dir: r.Scratch, Name: "c11-twins.db", NoHTTP: true,
+		AfterSvc: func(sv *service.Services, _ *config.AppConfig) { sv.Notifier.AddChannel(sv.Webhooks) }})
+	if err != nil {
+		r.Violate("harness|rig", err.Error(), caseID, nil)
+		return
+	}
+	defer st.Destroy()
+	base := []string{"/hooks/twin", "/Hooks/Twin/v2", "/t"}[i%3]
+	keep, drop := base+"/", base
+	if i%2 == 1 {
+		keep, drop = base, base+"/"
+	}
+	for _, p := range []string{keep, drop} {
+		if _, err := st.Svc.Webhooks.CreateWebhook("BEARER", "", "c11-twins", srv.URL+p); err != nil {
+			r.Violate("harness|create-webhook", err.Error(), caseID, nil)
+			return
+		}
+	}
+	if err := st.Svc.Webhooks.DeleteWebhook(srv.URL + drop); err != nil {
+		r.Count("twin_cases_skipped_revocation_refused", 1)
+		return
+	}
+	base0 := runtime.NumGoroutine()
+	settle := func() bool {
+		quiet := 0
+		for k := 0; k < 300000; k++ {
+			g := runtime.NumGoroutine()
+			if g < base0 {
+				base0 = g
+			}
+			if g <= base0 {
+				quiet++
+				if quiet >= 5 {
+					return true
+				}
+			} else {
+				quiet = 0
+			}
+			time.Sleep(100 * time.Microsecond)
+		}
+		return false
+	}
+	prev := rig.Genesis().HashOf()
+	for k := 0; k < 2+rng.Intn(3); k++ {
+		h := refmodel.Hdr{Prev: prev, Bits: gen.BitsNormal}
+		gen.Fields(rng, &h, false, k+1)
+		if res := st.Add(h); res.Code() != "stored" || !settle() {
+			r.Inconclusive(caseID, "a header was not stored or its deliveries did not come to rest")
+			return
+		}
+		prev = h.HashOf()
+		mu.Lock()
+		gotKeep, gotDrop := posts[keep+"|"+h.HashOf().String()], posts[drop+"|"+h.HashOf().String()]
+		mu.Unlock()
+		if gotKeep != 1 || gotDrop != 0 {
+			r.Violate(fmt.Sprintf("twins|registered=%d|revoked=%d", gotKeep, gotDrop),
+				fmt.Sprintf("webhooks %q and %q were registered, %q was revoked; for the next stored header the still registered one got %d POSTs (expected 1) and the revoked one %d (expected 0)", keep, drop, drop, gotKeep, gotDrop), caseID,
+				map[string]any{"registered": keep, "revoked": drop})
+			return
+		}
+	}
+	r.Count("webhook_pairs_differing_by_a_trailing_slash", 1)
+	r.Case("twins|"+base, true)
+}
+
+// manyWebhooks: 500 and more registered webhooks (the sizes at which lists get paged): every one of them gets exactly one
+// event per stored header.
+func manyWebhooks(r *ev.Run, caseID string, n int) {
+	rng := r.Rand(caseID)
+	var mu sync.Mutex
+	posts := map[string]int{}
+	srv := httptest.NewUnstartedServer(http.HandlerFunc(func(w http.ResponseWriter, q *http.Request) {
+		body, _ := io.ReadAll(q.Body)
+		if evj, err := parseEvent(body); err == nil && evj.Header != nil {
+			mu.Lock()
+			posts[q.URL.RequestURI()+"|"+evj.Header.Hash]++
+			mu.Unlock()
+		}
+		w.WriteHeader(http.StatusOK)
+	}))
+	srv.Start()
+	defer srv.Close()
+	st, err := rig.New(rig.Options{Dir: r.Scratch, Name: "c11-many.db", NoHTTP: true,
+		AfterSvc: func(sv *service.Services, _ *config.AppConfig) { sv.Notifier.AddChannel(sv.Webhooks) }})
+	if err != nil {
+		r.Violate("harness|rig", err.Error(), caseID, nil)
+		return
+	}
+	defer st.Destroy()
+	var paths []string
+	for k := 0; k < n; k++ {
+		p := fmt.Sprintf("/many/%04d", (k*7919)%n) // registration order differs from URL order
+		paths = append(paths, p)
+		if _, err := st.Svc.Webhooks.CreateWebhook("", "", "", srv.URL+p); err != nil {
+			r.Violate("harness|create-webhook", err.Error(), caseID, nil)
+			return
+		}
+	}
+	prev := rig.Genesis().HashOf()
+	for k := 0; k < 2; k++ {
+		h := refmodel.Hdr{Prev: prev, Bits: gen.BitsNormal}
+		gen.Fields(rng, &h, false, k+1)
+		if res := st.Add(h); res.Code() != "stored" {
+			r.Inconclusive(caseID, "a header was not stored")
+			return
+		}
+		prev = h.HashOf()
+		hs := h.HashOf().String()
+		// the deliveries of one event are made one after the other by one goroutine: wait until the last registered
+		// webhook has been served (bounded), then give stragglers the time of another full round
+		done := func() bool {
+			mu.Lock()
+			defer mu.Unlock()
+			c := 0
+			for _, p := range paths {
+				if posts[p+"|"+hs] > 0 {
+					c++
+				}
+			}
+			return c == len(paths)
+		}
+		for w := 0; w < 600 && !done(); w++ {
+			time.Sleep(50 * time.Millisecond)
+		}
+		time.Sleep(300 * time.Millisecond)
+		mu.Lock()
+		wrong, first := 0, ""
+		for _, p := range paths {
+			if c := posts[p+"|"+hs]; c != 1 {
+				wrong++
+				if first == "" {
+					first = fmt.Sprintf("%s got %d", p, c)
+				}
+			}
+		}
+		mu.Unlock()
+		if wrong > 0 {
+			r.Violate(fmt.Sprintf("many-webhooks|n=%d|not-exactly-one", n), fmt.Sprintf("%d webhooks are registered; for one stored header %d of them did not get exactly one POST (first: %s)", n, wrong, first), caseID, map[string]any{"webhooks": n})
+			return
+		}
+	}
+	r.Count("stores_with_500_or_more_webhooks", 1)
+	r.Count("events_delivered_to_many_webhooks", int64(2*n))
+	r.Case(fmt.Sprintf("many-webhooks|n=%d", n), true)
+}
